@@ -37,7 +37,8 @@ def build(reg):
     reg.external("txaio.add_callbacks", lambda ex, state, args, kwargs, sv: VNone)
     reg.shape("Invocation", cls=MSG + ":Invocation", fields={
         "request": "int", "registration": "int", "args": "none", "kwargs": "none", "payload": "none", "timeout": "any",
-        "receive_progress": "bool", "caller": "any", "caller_authid": "any", "caller_authrole": "any", "procedure": "opt:str",
+        "receive_progress": "opt:bool", "caller": "opt:int", "caller_authid": "opt:str", "caller_authrole": "opt:str",
+        "procedure": "opt:str",
         "transaction_hash": "any", "enc_algo": "none", "enc_key": "none", "enc_serializer": "none", "forward_for": "any"})
     # _message_from_exception: an ERROR for (request_type, request) -- assumed here
     reg.contract(PR + ":BaseSession._message_from_exception",
@@ -47,6 +48,7 @@ def build(reg):
                  verify=False, props=["C18"], spec_module="specs.wamp")
     reg.shape("ErrorOut", cls=MSG + ":Error", fields={"request_type": "int", "request": "int", "error": "str",
                                                       "args": "any", "kwargs": "any"})
+    EP = "self._registrations[msg.registration].endpoint"
     CLOSURE = {"self": "obj:Session", "msg": "obj:Invocation", "registration": "sym:Registration", "proc": "opt:str"}
     PRE = ["self._transport is not None", "msg.request in self._invocations"]
     MOD = ["self._invocations", "ghost.n_sent", "ghost.last_sent"]
@@ -64,6 +66,19 @@ def build(reg):
     reg.contract(SESS + ".onMessage/error@message.Invocation", params=dict(CLOSURE, err="any"), returns="none",
                  requires=PRE, modifies=MOD, ensures=POST, raises=RAISES, raises_ensures=RE, **common)
 
+    # ---- the progress callable handed to the endpoint: one progressive YIELD for this invocation, nothing else
+    reg.contract(SESS + ".onMessage/progress@message.Invocation",
+                 params=dict(CLOSURE, args="any", kwargs="any"), returns="none",
+                 requires=["self._transport is not None", "msg.request in self._invocations"],
+                 modifies=["ghost.n_sent", "ghost.last_sent"],
+                 ensures=["ghost.n_sent == old(ghost.n_sent) + 1",
+                          "isinstance(ghost.last_sent, Yield) and ghost.last_sent.request == msg.request and "
+                          "ghost.last_sent.progress is True",
+                          "ghost.last_sent.args is args and ghost.last_sent.kwargs is kwargs",
+                          "msg.request in self._invocations"],
+                 raises=dict(RAISES, AssertionError="True"),
+                 raises_ensures={"*": ["ghost.n_sent == old(ghost.n_sent)", "msg.request in self._invocations"]}, **common)
+
     # ---- the arm itself: endpoint invoked once for an active registration and a fresh request id
     def ext_endpoint(ex, state, args, kwargs, sv):
         g = state.heap[state.ghost.oid]
@@ -71,13 +86,34 @@ def build(reg):
         return W.ext_create_future(ex, state, [], {}, None)
     reg.external("txaio.as_future", ext_endpoint)
     from pyvc import models
-    models.CLASS_MODELS["CallDetails"] = lambda ex, state, args, kwargs: VInt(z3.Int(fresh_name("call_details")))
+    def call_details(ex, state, args, kwargs):
+        """CallDetails(registration, progress=..., caller=..., ...): what the endpoint is told about the call is recorded"""
+        g = state.heap[state.ghost.oid]
+        prog = kwargs.get("progress", VNone)
+        g.fields["progress_offered"] = VBool(simp(z3.Not(disj([gd for gd, a in alts_of(prog) if isinstance(a, VNoneT)]))))
+        for k in ("caller", "caller_authid", "caller_authrole", "procedure"):
+            g.fields["d_" + k] = kwargs.get(k, VNone)
+        g.fields["n_details"] = VInt(simp(g.fields["n_details"].t + 1))
+        return VInt(z3.Int(fresh_name("call_details")))
+    models.CLASS_MODELS["CallDetails"] = call_details
+    reg.shapes["Ghost"].fields.update({"progress_offered": "bool", "d_caller": "any", "d_caller_authid": "any",
+                                       "d_caller_authrole": "any", "d_procedure": "any", "n_details": "nat"})
     reg.shapes["HandlerRec"].fields.update({"fn": "any", "obj": "opt:int", "details_arg": "opt:str"})
     reg.contract(
         SESS + ".onMessage", name=SESS + ".onMessage<Invocation>", params={"self": "obj:Session", "msg": "obj:Invocation"},
         requires=["self._session_id is not None", "self._transport is not None"],
-        modifies=["self._invocations", "InvocationRequest.*", "Request.*", "Fut.*", "ghost.n_endpoint_calls"],
+        modifies=["self._invocations", "InvocationRequest.*", "Request.*", "Fut.*", "ghost.n_endpoint_calls",
+                  "ghost.progress_offered", "ghost.d_caller", "ghost.d_caller_authid", "ghost.d_caller_authrole",
+                  "ghost.d_procedure", "ghost.n_details"],
         ensures=["ghost.n_endpoint_calls == old(ghost.n_endpoint_calls) + 1",
+                 # call details are handed to the endpoint exactly when it asked for them (details_arg) ...
+                 "ghost.n_details == old(ghost.n_details) + (1 if %s.details_arg else 0)" % EP,
+                 # ... a progress callable is offered only when the caller asked for progressive results ...
+                 "implies(ghost.n_details > old(ghost.n_details), ghost.progress_offered == (msg.receive_progress is True))",
+                 # ... and the details name the caller as the INVOCATION does
+                 "implies(ghost.n_details > old(ghost.n_details), ghost.d_caller is msg.caller and "
+                 "ghost.d_caller_authid is msg.caller_authid and ghost.d_caller_authrole is msg.caller_authrole)",
+                 "implies(ghost.n_details > old(ghost.n_details) and msg.procedure, ghost.d_procedure == msg.procedure)",
                  "msg.request in self._invocations and ghost.n_sent == old(ghost.n_sent)",
                  "forall(k, 0, 2**53 + 1, implies(k != msg.request, (k in self._invocations) == old(k in self._invocations)))"],
         raises={"ProtocolError": "msg.request in self._invocations or msg.registration not in self._registrations"},
